@@ -1,6 +1,8 @@
 /-
 C02 — Marshal and ReadPDU agree with the SMPP v5 wire layout, field by field.
 -/
+import Smpp.Properties.SrcPduCodec
+import Smpp.Properties.SrcPduFrame
 import Smpp.Proofs.SpecLayout
 import Smpp.Proofs.Roundtrip
 import Smpp.Generated.Layouts
